@@ -152,6 +152,8 @@ def run(tier):
     chk = vlib.Check(PID, tier, 'model_checking')
     vlib.build('plain')
     files = zoo.standard_files()
+    if tier == 'thorough':
+        files.update(zoo.large_files())
     exe, listfile, models = seekgraph.load_models(files)
     t_end = time.time() + (240 if tier == 'quick' else 1500)
     stats = {'rejections': 0, 'sigs': set()}
@@ -191,6 +193,7 @@ def replay(path):
     r = json.load(open(path))
     vlib.build('plain')
     files = zoo.standard_files()
+    files.update(zoo.large_files())
     exe, listfile, models = seekgraph.load_models(files)
     fm = [m for m in models if m.name == r['replay']['file']][0]
     out = vlib.run_cases(exe, [f"{fm.idx} s - plin " + ' '.join(r['replay']['ops'])], ['--files', listfile], jobs=1)
